@@ -310,6 +310,36 @@ CLAIMED['C06']['note'] = ('Trusted: Coq kernel + VM; the ANSI decoder of the har
 CLAIMED['C14']['text'] = CLAIMED['C14']['text'] + (
     ' The end-to-end stream covers the three output modes (full diff, -e, -d), --format cross-rendering and all input types; where '
     'rendering raises (C13\'s open findings) command and library must raise the same class.')
+
+CLAIMED['C04']['text'] = (
+    'Theorems over small-step machines {state; bounds; tighten} mirroring tighten_bounds()/bounds() of the Bounded classes, with the '
+    'STRICT contract (bounds never widen, always contain the final value, a True step strictly shrinks, False only on an interval that '
+    'already is a single value and stays unchanged, at most width-many True steps): proved per class for ConstantCostEdit, the sum '
+    'combinator (KeyValuePairEdit/XML/DataClass), repeat_until_tightened + FixedLengthSequenceEdit, EditDistance (monotone fringe '
+    'minimum below the final cell, sound constant lower bound, delete-all/insert-all upper bound), StringEdit, EditCollection / '
+    'FixedKeyDictNodeEdit (C04_collection), WeightedBipartiteMatcher and MultiSetEdit (C04_bracket_lo/_hi: k smallest row minima <= any '
+    'k-pair total <= k largest row maxima; C04_matcher, C04_multiset; make_distinct and the assignment are oracle inputs over which the '
+    'theorems quantify), and by the closing induction C04_docs for every pair of JSON-path trees without repeated multiset elements and '
+    'every oracle: initO orc a b = Some s -> Contract. (initO contains one computed guard - a FixedKeyDictNodeEdit enters only if the sum '
+    'of its children\'s initial upper bounds fits its cost_upper_bound; it passed on every generated document but is not proved to '
+    'always pass, so C04_docs is conditional on it.) C04_trace links the contract to the executable statement evaluated on '
+    'implementation traces. IterativeTighteningSearch/PossibleEdits and multisets with repeated elements (open finding D36) are '
+    'validated by trace only. Tie: every Bounded object created during diff(), get_all_edits() and explicit drives is wrapped from '
+    'outside; holds_C04 on its trace, corr_C04 = the model machine (fed the recorded oracle answers) reproduces the exact bounds/flag '
+    'sequence of the root edit. Found D23, D24, D25 (repaired).')
+CLAIMED['C13']['text'] = CLAIMED['C13']['text'].replace(
+    'Tie: the configuration product', 'The model is quantified over the dictionary strategy (FixedKeyDictNode vs DictNode grammars) and '
+    'rules out same-item re-dispatch loops (C13_no_loop); leaf emitters are tabulated per scalar class (incl. integers outside 64 bits, '
+    'non-finite floats, bytes). Tie: the configuration product (now incl. the option flags -k/-ds/-l/-ll and extreme-scalar documents)')
+CLAIMED['C13']['note'] = CLAIMED['C13']['note'].replace('Open findings: D9, D19.', 'Open findings: D9, D19, D38, D39.')
+CLAIMED['C08']['text'] = CLAIMED['C08']['text'] + (
+    ' Trees are built through json.build_tree, BasicBuilder and pydiff; mappings with keys of mixed type (YAML, Python objects) are a '
+    'judged stream: cost invariance and copy equality must hold, the pairing clause there is open finding D40 (non-transitive fallback '
+    'order of LeafNode.__lt__).')
+CLAIMED['C08']['note'] = CLAIMED['C08']['note'].replace('Open findings: D4, D16 (swap clause).', 'Open findings: D4, D16 (swap clause), D40 (pairing under mixed-type keys).')
+CLAIMED['C05']['text'] = CLAIMED['C05']['text'] + (
+    ' holds_C05 also requires, for every history, equal final costs under quiet and non-quiet, final cost = sum of the leaf edits, and '
+    'the get_all_edits / edited_cost views on fresh trees to agree for both settings.')
 NOT_YET = 'model and theorem not completed yet (DESIGN.md section 7)'
 NA = {}
 
